@@ -1,6 +1,6 @@
 """Drivers shared by the API-contract properties (C01 C02 C03 C04 C15): option bindings, the
 clock shim, and the recording of session steps.  Recording only -- no verdicts here."""
-import datetime as _real_datetime, inspect, json, types
+import datetime as _real_datetime, inspect, json, types, os
 from vlib import lib, inputs
 
 # documented keyword options of validate()/is_valid() that are not plain booleans
@@ -116,7 +116,7 @@ CLOCKS = [(1999, 12, 31), (2000, 1, 1), (2024, 2, 29), (2099, 12, 31), (1970, 1,
 # ---- recording session steps -----------------------------------------------------------------------
 
 def ev(name, a, o, r, x=None):
-    e = {'m': name, 'a': a, 'o': o, 'r': slim(r)}
+    e = {'m': name, 'a': a, 'o': o, 'r': slim(r), 'dt': False}
     if x is not None:
         e['x'] = lib.cps(x) if isinstance(x, str) else []
     return e
@@ -155,3 +155,84 @@ def describe_value(v):
     if isinstance(v, str):
         return v if len(v) <= 200 else v[:60] + '...(%d chars)' % len(v)
     return repr(v)[:200]
+
+
+# ---- the repository's own doctests as traces -----------------------------------------------------------
+def doctest_traces(emit, count_key='doctest_calls'):
+    """Runs every doctest of the repository (module docstrings and tests/*.doctest) with validate / is_valid of every
+    number module wrapped by a recorder, and emits one micro-trace per doctest example: the calls it made, nested calls
+    included, in order.  The trace specification judges them like any other session (events carry dt = TRUE so that
+    is_valid is related to the validate call nested inside it only when module and argument are the same)."""
+    import doctest, glob, functools, io, contextlib, hashlib
+    lib.load_stdnum()
+    cur = {'events': [], 'name': ''}
+
+    def wrap(name, fn, f):
+        @functools.wraps(f)
+        def w(*args, **kwargs):
+            try:
+                val = f(*args, **kwargs)
+            except BaseException as e:   # noqa
+                mro = [c.__module__ + '.' + c.__name__ for c in type(e).__mro__]
+                r = {'k': 'exc', 't': '', 'v': [], 'b': False, 'mro': mro}
+                record(name, fn, args, kwargs, r)
+                raise
+            r = {'k': 'ret', 't': type(val).__name__, 'v': lib.cps(val) if type(val) is str else [], 'b': val if type(val) is bool else False, 'mro': []}
+            record(name, fn, args, kwargs, r)
+            return val
+        return w
+
+    def record(name, fn, args, kwargs, r):
+        x = args[0] if args else kwargs.get('number')
+        if not isinstance(x, str):
+            return
+        xh = hashlib.sha1(repr((x, sorted(kwargs.items()))).encode('utf-8', 'surrogatepass')).hexdigest()[:12]
+        cur['events'].append({'m': name, 'a': fn, 'o': xh, 'r': r, 'dt': True})
+
+    originals = []
+    for name, mod in lib.modules():
+        for fn in ('validate', 'is_valid'):
+            f = getattr(mod, fn, None)
+            if callable(f) and getattr(f, '__module__', '') == mod.__name__:
+                originals.append((mod, fn, f))
+                setattr(mod, fn, wrap(name, fn, f))
+
+    class Runner(doctest.DocTestRunner):
+        def report_start(self, out, test, example):
+            flush()
+            cur['name'] = '%s:%d %s' % (test.name, example.lineno + 1, example.source.strip()[:80])
+
+        def report_success(self, *a):
+            pass
+
+        def report_failure(self, *a):
+            pass
+
+        def report_unexpected_exception(self, *a):
+            pass
+
+    def flush():
+        if cur['events']:
+            emit.trace(cur['events'], {'m': cur['events'][-1]['m'], 'w': cur['name'], 'how': 'doctest example', 'site': ''})
+            emit.count(count_key, len(cur['events']))
+        cur['events'] = []
+
+    flags = doctest.NORMALIZE_WHITESPACE | doctest.IGNORE_EXCEPTION_DETAIL | doctest.ELLIPSIS
+    runner = Runner(verbose=False, optionflags=flags)
+    finder = doctest.DocTestFinder()
+    try:
+        with contextlib.redirect_stdout(io.StringIO()), contextlib.redirect_stderr(io.StringIO()):
+            for name, mod in lib.modules():
+                for t in finder.find(mod, mod.__name__):
+                    runner.run(t, out=lambda s: None, clear_globs=True)
+                flush()
+            parser = doctest.DocTestParser()
+            for path in sorted(glob.glob(os.path.join(lib.REPO, 'tests', '*.doctest'))):
+                with open(path, encoding='utf-8') as fh:
+                    text = fh.read()
+                t = parser.get_doctest(text, {'__name__': '__main__'}, os.path.basename(path), path, 0)
+                runner.run(t, out=lambda s: None, clear_globs=True)
+                flush()
+    finally:
+        for mod, fn, f in originals:
+            setattr(mod, fn, f)
